@@ -89,6 +89,7 @@ func classes(s Stats) []string {
 	add(s.LocalhostInboundRejected > 0, "localhost-inbound-from-nonlocal")
 	add(s.AllowedArrivalCopy > 0, "arrival-face-is-downstream")
 	add(s.LapsedAllowed > 0, "lapsed-or-uncertain-in-record-at-data")
+	add(s.MangledToken > 0, "data-with-own-token-whose-thread-field-is-out-of-range")
 	add(s.FaceDown > 0, "face-removed")
 	add(s.FaceUp > 0, "face-added")
 	add(s.FaceDown > 0 && s.FaceUp > 0, "face-removed-and-another-added")
